@@ -56,11 +56,6 @@ loop(F_TOPIC, "Topic.publish_sync", 1,
      inv=[("one-delivery-per-active-subscription-so-far", lambda L: _sync_inv(L)),
           ("events-are-deliveries-stamped-now", lambda L: _sync_events(L, L.delivery_events))])
 
-# EventLog._do_read: for rec in partition.records   (result is mutated in place: typed)
-loop(F_LOG, "EventLog._do_read", 1, modifies=[],
-     types={"result": lambda: Seq(RECORD), "rec": lambda: RECORD},
-     inv=[("result-is-the-gap-free-run-from-the-requested-offset", lambda L: _read_inv(L))])
-
 # ConsumerGroup.handle_event: loop 2 = Commit: for pid, offset in offsets.items()
 loop(F_CG, "ConsumerGroup.handle_event", 2, modifies=[("ConsumerGroup", "_committed_offsets")],
      types={"pid": lambda: Int, "offset": lambda: Int},
@@ -966,14 +961,32 @@ from happysimulator.components.streaming.event_log import EventLog, Partition, R
 from happysimulator.components.datastore.sharded_store import HashSharding  # noqa: E402
 from pyvc.extern import _uf  # noqa: E402
 
-PROPERTY["trusted"] += ["hashlib.md5: deterministic function of its input (uninterpreted), pyvc/extern.py"]
+PROPERTY["trusted"] += ["hashlib.md5: deterministic function of its input (uninterpreted), pyvc/extern.py",
+                        "definition part_of(key, n) := md5(key) % n (a fresh function symbol, introduced while proving "
+                        "EventLog._get_partition_for_key and used opaquely by its callers)"]
 PROPERTY["assumptions"] += [
     "EventLog: the sharding strategy is the default HashSharding; the retention policy is None or a SizeRetention "
     "(TimeRetention filters with a conditional comprehension, outside the modelled fragment)",
 ]
 
 RECORD = valueclass("Record", [Record], [("offset", Int), ("key", Str), ("value", Any), ("timestamp", Real), ("partition", Int)])
-cls(Partition, fields={"id": Int, "records": Seq(RECORD), "high_watermark": Int})
+
+
+def _partition_offsets(p):
+    """offsets within a partition are gap free and increasing between the retention low mark and the high watermark"""
+    c = _ctx.cur()
+    fz = p._frozen
+    recs = z3.Select(c.heap.array(("Partition", "records"), Seq(RECORD), fz), p._ref)
+    hw = z3.Select(c.heap.array(("Partition", "high_watermark"), Int, fz), p._ref)
+    pid = z3.Select(c.heap.array(("Partition", "id"), Int, fz), p._ref)
+    R = RECORD.dt
+    low = hw - z3.Length(recs)
+    return mk_bool(low >= 0) & forall(Int, lambda j: mk_bool(z3.Implies(
+        z3.And(j.t >= 0, j.t < z3.Length(recs)), z3.And(R.offset(recs[j.t]) == low + j.t, R.partition(recs[j.t]) == pid))))
+
+
+cls(Partition, fields={"id": Int, "records": Seq(RECORD), "high_watermark": Int},
+    inv=[("offsets-gap-free-from-low-mark-to-high-watermark", _partition_offsets)])
 cls(HashSharding, fields={})
 cls(SizeRetention, fields={"_max_records": Int}, inv=[("positive", lambda o: o._max_records >= 1)])
 
@@ -1009,23 +1022,21 @@ def _log_shape(o):
                                             v.low(i.t) >= 0))))
 
 
-def _log_offsets(o):
-    """offsets within a partition are gap free and increasing between the retention low mark and the high watermark"""
-    v = LV(o)
-    R = RECORD.dt
-    return forall(Int, lambda i: forall(Int, lambda j: mk_bool(z3.Implies(
-        z3.And(i.t >= 0, i.t < v.n, j.t >= 0, j.t < z3.Length(v.rec(i.t))),
-        z3.And(R.offset(v.rec(i.t)[j.t]) == v.low(i.t) + j.t, R.partition(v.rec(i.t)[j.t]) == i.t)))))
-
-
 cls(EventLog, fields={"_num_partitions": Int, "_sharding": Ref(HashSharding), "_retention_policy": OptRef(SizeRetention),
                       "_append_latency": Real, "_read_latency": Real, "_retention_check_interval": Real,
                       "_partitions": Seq(Ref(Partition)), "_retention_scheduled": Bool, "_records_appended": Int,
                       "_records_read": Int, "_records_expired": Int, "_per_partition_appends": Map(Int, Int),
                       "_append_latencies": Seq(Real)},
     const=["_num_partitions", "_sharding", "_retention_policy", "_partitions"],
-    inv=[("one-partition-object-per-id", _log_shape),
-         ("offsets-gap-free-from-low-mark-to-high-watermark", _log_offsets)])
+    inv=[("one-partition-object-per-id", _log_shape)])
+
+
+def _part_focus(pid_of):
+    """the partition object the call works on is a focus object: its invariant (gap-free offsets) is assumed at
+    entry and is an obligation at exit; the other partitions are framed (`others unchanged` clauses)"""
+    def f(s):
+        return [ObjProxy(LV(s.self).parts[pid_of(s)], Partition)]
+    return f
 
 
 def key_hash(key):
@@ -1039,9 +1050,18 @@ def shard_of(key, n):
     return h - nn * z3.If(nn > 0, h / nn, (-h) / (-nn))          # Python's h % n as the code computes it
 
 
-fn(EventLog, "_get_partition_for_key", args={"key": Str}, ensures=[
+def part_of(key, n):
+    """partition of a key: an opaque function of (key, number of partitions), DEFINED as md5(key) % n by the
+    definitional precondition of _get_partition_for_key (conservative: part_of occurs nowhere else unconstrained).
+    Callers reason with the opaque symbol, which keeps their obligations linear."""
+    return _uf("c19_part_of", z3.StringSort(), z3.IntSort(), z3.IntSort())(_kt(key), num(n))
+
+
+fn(EventLog, "_get_partition_for_key", args={"key": Str}, returns=Int, modifies=[],
+   setup=lambda s: (assume(mk_bool(part_of(s.key, s.self._num_partitions) == shard_of(s.key, s.self._num_partitions))), [])[1],
+   ensures=[
     ("in-range", lambda s: (s.result >= 0) & (s.result < s.self._num_partitions)),
-    ("function-of-key-and-partition-count-only", lambda s: mk_bool(num(s.result) == shard_of(s.key, s.self._num_partitions))),
+    ("function-of-key-and-partition-count-only", lambda s: mk_bool(num(s.result) == part_of(s.key, s.self._num_partitions))),
     ("pure", lambda s: unchanged(s, s.self))])
 
 
@@ -1049,7 +1069,7 @@ def _append_post(s):
     o, n = LV(s.old(s.self)), LV(s.self)
     r = RECORD.unwrap(s.result)
     R = RECORD.dt
-    pid = shard_of(s.key, s.self._num_partitions)
+    pid = part_of(s.key, s.self._num_partitions)
     return (mk_bool(z3.And(R.offset(r) == o.hw(pid), n.hw(pid) == o.hw(pid) + 1,
                            n.rec(pid) == z3.Concat(o.rec(pid), z3.Unit(r)),
                            R.partition(r) == pid, R.key(r) == _kt(s.key), R.value(r) == s.value.t))
@@ -1057,51 +1077,498 @@ def _append_post(s):
                                                        z3.And(n.rec(i.t) == o.rec(i.t), n.hw(i.t) == o.hw(i.t))))))
 
 
-fn(EventLog, "_do_append", args={"key": Str, "value": Any}, ensures=[
+fn(EventLog, "_do_append", args={"key": Str, "value": Any},
+   focus=_part_focus(lambda s: part_of(s.key, s.self._num_partitions)), uses=[(EventLog, "_get_partition_for_key")],
+   ensures=[
     ("appended-at-the-high-watermark-of-the-keys-partition", _append_post),
     ("counted", lambda s: s.self._records_appended == s.old(s.self)._records_appended + 1)])
 
 
-def _read_k0(L_or_s, v, pid):
-    off = num(L_or_s.offset)
-    d = off - v.low(pid)
-    return z3.If(d > 0, d, z3.IntVal(0))
+
+# ============================================================================ E. ConsumerGroup
+import happysimulator.components.streaming.consumer_group as _cg_mod  # noqa: E402
+from happysimulator.components.streaming.consumer_group import (ConsumerGroup, RangeAssignment, RoundRobinAssignment,  # noqa: E402
+                                                                StickyAssignment)
+
+PROPERTY["assumptions"] += [
+    "ConsumerGroup: event context entries have the types the handler expects (consumer_name: str, consumer_entity: Entity, "
+    "offsets: dict[int, int], reply_future: a SimFuture whose resolve() does not touch the group); the handler runs on a typed "
+    "view of the event (ghost statement at entry)",
+    "ConsumerGroup._rebalance relies on the PartitionAssignment interface contract `assign returns a partition of the "
+    "partitions over exactly the given consumers` (stub_of RangeAssignment.assign); the three shipped strategies are checked "
+    "against it by the bounded stand-in `assignment-strategies-partition` (exhaustive up to 7 partitions x 5 consumers), not proved",
+    "list(range(n)) is the sequence 0..n-1 and sorted(d.keys()) a duplicate-free sequence with exactly the keys of d "
+    "(models patched into consumer_group's globals by specs/C19.py)",
+    "the Poll branch of ConsumerGroup.handle_event is not under contract (requires event_type != 'Poll')",
+]
+
+OFFSETS = Map(Int, Int)
+ASSIGN = Map(Str, Seq(Int))
+cls(RangeAssignment, fields={})
+cls(ConsumerGroup, fields={"_event_log": Ref(EventLog), "_strategy": Ref(RangeAssignment), "_rebalance_delay": Real,
+                           "_poll_latency": Real, "_session_timeout": Opt(Real), "_consumers": Map(Str, Ref(Entity), ordered=True),
+                           "_assignments": ASSIGN, "_committed_offsets": Map(Str, OFFSETS), "_generation": Int,
+                           "_joins": Int, "_leaves": Int, "_rebalances": Int, "_polls": Int, "_commits": Int,
+                           "_records_polled": Int},
+    const=["_event_log", "_strategy", "_rebalance_delay", "_poll_latency"],
+    guarantee=[("generation-never-decreases", lambda old, new: new._generation >= old._generation)])
 
 
-def _read_inv(L):
-    v = LV(L.self)
-    pid = num(L.partition_id)
-    recs = v.rec(pid)
-    i = num(L.i)
-    _ctx.cur().note_term(i)
-    res = L.result.term if isinstance(L.result, SymList) else Seq(RECORD).unwrap(L.result)
-    k0 = _read_k0(L, v, pid)
-    ln = z3.If(i > k0, i - k0, z3.IntVal(0))
-    return mk_bool(z3.And(res == z3.Extract(recs, k0, ln), z3.Length(res) == ln,
-                          z3.Or(z3.Length(res) == 0, z3.Length(res) < num(L.max_records)),
-                          seq_term(L.seq) == recs))
+def _is_partition(assign_term, n_parts, members_dom):
+    """`assign` maps exactly the members to lists that together hold every partition 0..n-1 exactly once"""
+    A = ASSIGN.dt
+    dom, val = A.dom(assign_term), A.val(assign_term)
+    c, c2 = z3.String("pc"), z3.String("pc2")
+    p, i, j = z3.Int("pp"), z3.Int("pi"), z3.Int("pj")
+    owner = _uf("c19_owner", ASSIGN.sort(), z3.IntSort(), z3.StringSort())
+    return z3.And(
+        dom == members_dom,
+        # every partition has an owner that is a member and lists it
+        z3.ForAll([p], z3.Implies(z3.And(p >= 0, p < n_parts), z3.And(
+            z3.Select(dom, owner(assign_term, p)), z3.Contains(z3.Select(val, owner(assign_term, p)), z3.Unit(p))))),
+        # only valid partitions are listed, and only by their one owner, once
+        z3.ForAll([c, i], z3.Implies(z3.And(z3.Select(dom, c), i >= 0, i < z3.Length(z3.Select(val, c))), z3.And(
+            z3.Select(val, c)[i] >= 0, z3.Select(val, c)[i] < n_parts, owner(assign_term, z3.Select(val, c)[i]) == c))),
+        z3.ForAll([c, i, j], z3.Implies(z3.And(z3.Select(dom, c), i >= 0, i < j, j < z3.Length(z3.Select(val, c))),
+                                         z3.Select(val, c)[i] != z3.Select(val, c)[j])))
 
 
-def _read_post(s):
-    v = LV(s.self)
-    if isinstance(s.result, list) and not s.result:
-        res = z3.Empty(z3.SeqSort(RECORD.sort()))
-    else:
-        res = s.result.term
-    pid = num(s.partition_id)
-    in_range = z3.And(pid >= 0, pid < v.n)
-    recs = v.rec(pid)
-    k0 = _read_k0(s, v, pid)
-    mx = num(s.max_records)
-    return mk_bool(z3.And(
-        z3.Implies(z3.Not(in_range), z3.Length(res) == 0),
-        z3.Implies(in_range, z3.And(
-            res == z3.Extract(recs, k0, z3.Length(res)),                         # the gap-free run starting at the first
-            z3.Or(z3.Length(res) <= mx, z3.Length(res) == 1),                    # offset >= requested; bounded by max_records
-            z3.Or(z3.Length(res) >= mx, k0 + z3.Length(res) >= z3.Length(recs))))))   # short only at the high watermark
+def _assign_contract(s):
+    parts, cons = seq_term(s.partitions), seq_term(s.consumers)
+    A = ASSIGN.dt
+    k = z3.String("ak")
+    members = z3.Lambda([k], z3.Contains(cons, z3.Unit(k)))
+    n = z3.Length(parts)
+    return mk_bool(z3.Implies(z3.Length(cons) > 0, _is_partition(s.result.term, n, members)))
 
 
-fn(EventLog, "_do_read", args={"partition_id": Int, "offset": Int, "max_records": Int}, ensures=[
-    ("returns-the-gap-free-run-from-the-requested-offset-in-offset-order", _read_post),
-    ("counted", lambda s: s.self._records_read == s.old(s.self)._records_read + slen(s.result)),
-    ("log-untouched", lambda s: unchanged(s, s.self, "_partitions", "_num_partitions"))])
+stub_of(RangeAssignment, "assign", args={"partitions": Seq(Int), "consumers": Seq(Str)}, returns=ASSIGN, modifies=[],
+        requires=[("partitions-are-0..n-1", lambda s: forall(Int, lambda i: mk_bool(z3.Implies(
+            z3.And(i.t >= 0, i.t < z3.Length(seq_term(s.partitions))), seq_term(s.partitions)[i.t] == i.t))))],
+        ensures=[("result-is-a-partition-of-the-partitions-over-the-consumers", _assign_contract)])
+
+
+def _cg_list(x=()):
+    """list(range(n)) with symbolic n: the sequence 0..n-1 (model)"""
+    if _ctx.active() and type(x).__name__ == "_SymRange":
+        c = _ctx.cur()
+        n = num(x.hi)
+        out = c.fresh("range_list", z3.SeqSort(z3.IntSort()))
+        c.assume(z3.Length(out) == z3.If(n > 0, n, 0))
+        i = z3.Int("rl_i")
+        c.assume(z3.ForAll([i], z3.Implies(z3.And(i >= 0, i < z3.Length(out)), out[i] == i)))
+        return SymList(Box(out), Int)
+    return _cg_rt_list(x)
+
+
+def _cg_sorted(x, **kw):
+    """sorted(d.keys()) over a symbolic dict: a duplicate-free sequence holding exactly the keys (model)"""
+    if _ctx.active() and isinstance(x, SymList) and not kw and not z3.is_int_value(z3.simplify(x._len())):
+        c = _ctx.cur()
+        out = c.fresh("sorted_keys", z3.SeqSort(z3.StringSort()))
+        k = z3.String("sk_k")
+        c.assume(z3.Length(out) == x._len())
+        c.assume(z3.ForAll([k], z3.Contains(out, z3.Unit(k)) == z3.Contains(x.term, z3.Unit(k))))
+        return SymList(Box(out), Str)
+    return _cg_rt_sorted(x, **kw)
+
+
+_cg_rt_list, _cg_rt_sorted = _cg_mod.list, _cg_mod.sorted
+_cg_mod.list, _cg_mod.sorted = _cg_list, _cg_sorted
+
+
+class _Reply:
+    """stand-in for a SimFuture taken from an event context: records the resolved value (ghost)"""
+
+    def resolve(self, value=None):
+        _ctx.cur().ghost_args["c19_reply"] = value
+
+
+class _TypedCtx:
+    def __init__(self):
+        self.vals = {}
+
+    def get(self, key, default=None):
+        if key not in self.vals:
+            ty = {"consumer_name": Str, "consumer_entity": Ref(Entity), "offsets": OFFSETS, "max_records": Int}.get(key)
+            if key == "reply_future":
+                self.vals[key] = _Reply()
+            elif ty is None:
+                raise OutOfReach(f"untyped context key {key}")
+            else:
+                self.vals[key] = ty.fresh("ctx_" + key)
+        return self.vals[key]
+
+
+class _TypedEvent:
+    def __init__(self, ev):
+        self._ev = ev
+        self.context = _TypedCtx()
+
+    @property
+    def event_type(self):
+        return self._ev.event_type
+
+
+def _typed_event(ev):
+    te = _TypedEvent(ev)
+    _ctx.cur().ghost_args["c19_event"] = te
+    return te
+
+
+_cg_mod._c19_typed_event = _typed_event
+
+
+def cg_ctx(key):
+    """the typed context value the handler read on this path (ghost)"""
+    te = _ctx.cur().ghost_args.get("c19_event")
+    return None if te is None else te.context.vals.get(key)
+
+
+def committed_view(cg, c, p):
+    """committed offset of (consumer c, partition p); 0 when nothing was committed (what consumer_lag / Poll read)"""
+    ctx = _ctx.cur()
+    outer = z3.Select(ctx.heap.array(("ConsumerGroup", "_committed_offsets"), Map(Str, OFFSETS), cg._frozen), cg._ref)
+    M = Map(Str, OFFSETS).dt
+    inner = z3.Select(M.val(outer), c)
+    return z3.If(z3.And(z3.Select(M.dom(outer), c), z3.Select(OFFSETS.dt.dom(inner), p)), z3.Select(OFFSETS.dt.val(inner), p), 0)
+
+
+def _vmax(a, b):
+    return z3.If(a >= b, a, b)
+
+
+def _commit_inv(L):
+    me, old = L.self, L.old(L.self)
+    name = L.consumer_name.t if hasattr(L.consumer_name, "t") else z3.StringVal(L.consumer_name)
+    offs = L.offsets.term
+    visited = L.visited.arr
+    outer = z3.Select(_ctx.cur().heap.array(("ConsumerGroup", "_committed_offsets"), Map(Str, OFFSETS)), me._ref)
+    return (mk_bool(z3.Select(Map(Str, OFFSETS).dt.dom(outer), name))
+            & forall(Str, lambda c: forall(Int, lambda p: mk_bool(z3.And(
+                committed_view(me, c.t, p.t) >= committed_view(old, c.t, p.t),
+                z3.Implies(c.t != name, committed_view(me, c.t, p.t) == committed_view(old, c.t, p.t)),
+                z3.Implies(z3.And(c.t == name, z3.Select(visited, p.t)), committed_view(me, c.t, p.t) == _vmax(
+                    committed_view(old, c.t, p.t), z3.Select(OFFSETS.dt.val(offs), p.t))),
+                z3.Implies(z3.And(c.t == name, z3.Not(z3.Select(visited, p.t))),
+                           committed_view(me, c.t, p.t) == committed_view(old, c.t, p.t)))))))
+
+
+def _commit_post(s):
+    if s.old(s.event).event_type != "Commit":
+        return True
+    name, offs = cg_ctx("consumer_name"), cg_ctx("offsets")
+    me, old = s.self, s.old(s.self)
+    return forall(Str, lambda c: forall(Int, lambda p: mk_bool(z3.And(
+        committed_view(me, c.t, p.t) >= committed_view(old, c.t, p.t),                        # never backwards
+        z3.Implies(c.t != name.t, committed_view(me, c.t, p.t) == committed_view(old, c.t, p.t)),
+        z3.Implies(z3.And(c.t == name.t, z3.Select(OFFSETS.dt.dom(offs.term), p.t)),            # forward commits take effect
+                   committed_view(me, c.t, p.t) == _vmax(committed_view(old, c.t, p.t), z3.Select(OFFSETS.dt.val(offs.term), p.t)))))))
+
+
+def _members_dom(cg):
+    m = z3.Select(_ctx.cur().heap.array(("ConsumerGroup", "_consumers"), Map(Str, Ref(Entity), ordered=True), cg._frozen), cg._ref)
+    return Map(Str, Ref(Entity), ordered=True).dt.dom(m)
+
+
+def _cg_wf(s):
+    """dict bookkeeping of the ordered members map: its key sequence lists exactly its keys (model fact)"""
+    mt = Map(Str, Ref(Entity), ordered=True)
+    m = z3.Select(_ctx.cur().heap.array(("ConsumerGroup", "_consumers"), mt), s.self._ref)
+    k = z3.String("wf_k")
+    return mk_bool(z3.ForAll([k], z3.Select(mt.dt.dom(m), k) == z3.Contains(mt.dt.keys(m), z3.Unit(k))))
+
+
+def _rebalanced(s, before):
+    """after a rebalance every partition belongs to exactly one CURRENT member; the generation went up"""
+    me = s.self
+    a = z3.Select(_ctx.cur().heap.array(("ConsumerGroup", "_assignments"), ASSIGN), me._ref)
+    n = z3.Select(_ctx.cur().heap.array(("EventLog", "_num_partitions"), Int), me._event_log._ref)
+    nonempty = slen(me._consumers) > 0
+    return (me._generation == before._generation + 1) & mk_bool(z3.Implies(
+        to_z3_bool(nonempty), _is_partition(a, z3.If(n > 0, n, 0), _members_dom(me))))
+
+
+fn(ConsumerGroup, "_rebalance", uses=[(RangeAssignment, "assign")], modifies=["_generation", "_assignments", "_rebalances"],
+   requires=[("members-map-bookkeeping", _cg_wf)],
+   ensures=[
+    ("generation-strictly-increases-and-every-partition-has-exactly-one-current-member", lambda s: _rebalanced(s, s.old(s.self))),
+    ("counted", lambda s: s.self._rebalances == s.old(s.self)._rebalances + 1),
+    ("members-and-offsets-untouched", lambda s: unchanged(s, s.self, "_consumers", "_committed_offsets"))])
+
+fn(ConsumerGroup, "handle_event", args={"event": Ref(Event)}, uses=[(ConsumerGroup, "_rebalance")],
+   requires=[("not-poll", lambda s: s.event.event_type != "Poll"), ("members-map-bookkeeping", _cg_wf)],
+   yields=Yields(
+       at_yield=[("delay-is-the-configured-rebalance-delay", lambda s, y: y == s.self._rebalance_delay),
+                 ("committed-untouched-by-join-leave", lambda s, y: forall(Str, lambda c: forall(Int, lambda p: mk_bool(
+                     committed_view(s.self, c.t, p.t) == committed_view(s.old(s.self), c.t, p.t)))))],
+       rely=[lambda s, b, y: _cg_wf(s)]),
+   ensures=[
+    ("commit-never-moves-an-offset-backwards", _commit_post),
+    ("join-leave-rebalance-for-the-current-members", lambda s: True if s.old(s.event).event_type not in ("Join", "Leave")
+        else _rebalanced(s, s.pre(s.self))),
+    ("join-replies-with-the-members-assignment", lambda s: True if s.old(s.event).event_type != "Join" else _join_reply(s)),
+    ("no-follow-up-events", lambda s: s.result is None)])
+
+
+def _join_reply(s):
+    rep = _ctx.cur().ghost_args.get("c19_reply")
+    name = cg_ctx("consumer_name")
+    a = s.self._assignments
+    if isinstance(rep, list):
+        return Not(contains(a, name)) if not rep else False
+    return contains(a, name) & mk_bool(rep.term == z3.Select(ASSIGN.dt.val(a.term), name.t))
+
+
+
+# ============================================================================ F. OutboxRelay / IdempotencyStore
+import happysimulator.components.microservice.idempotency_store as _is_mod  # noqa: E402
+from happysimulator.components.microservice.idempotency_store import IdempotencyStore, _CachedResponse  # noqa: E402
+from happysimulator.components.microservice.outbox_relay import OutboxRelay, OutboxEntry  # noqa: E402
+
+PROPERTY["assumptions"] += [
+    "IdempotencyStore._forward is used through an ASSUMED contract (it records the key as in flight and emits the forwarded "
+    "request; its `{**event.context}` dict unpacking is outside the modelled fragment); the key extractor is an arbitrary "
+    "side-effect-free function returning a str or None",
+    "OutboxRelay._handle_poll (conditional comprehension + yield in loop) is not under contract; the stale relay stamp found "
+    "there is repaired by fixes/C07_outbox-relay-stamp.diff (property C07)",
+]
+
+cls(_CachedResponse, fields={"key": Str, "cached_at": TIME, "ttl": Real})
+CACHE = Map(Str, Ref(_CachedResponse), ordered=True)
+cls(IdempotencyStore, fields={"_target": Ref(Entity), "_key_extractor": Fn(Opt(Str), "key_extractor"), "_ttl": Real,
+                              "_max_entries": Int, "_cleanup_interval": Real, "_cache": CACHE, "_in_flight": Set(Str),
+                              "_total_requests": Int, "_cache_hits": Int, "_cache_misses": Int, "_entries_expired": Int,
+                              "_entries_stored": Int},
+    const=["_target", "_key_extractor", "_ttl", "_max_entries", "_cleanup_interval"],
+    inv=[("config", lambda o: (o._max_entries >= 1) & (o._ttl > 0))])
+
+
+def _fwd_key(s):
+    """the key handed to _forward on this path (ghost call trace), or the marker 'no-call'"""
+    for qn, vals, res in _ctx.cur().ghost_args.get("trace", []):
+        if qn == "IdempotencyStore._forward":
+            return vals["key"]
+    return "no-call"
+
+
+stub_of(IdempotencyStore, "_forward", args={"event": Ref(Event), "key": Opt(Str)}, returns=Seq(Ref(Event)),
+        modifies=["_in_flight"], ensures=[
+    lambda s: slen(s.result) >= 1,
+    lambda s: unchanged(s, s.self, "_in_flight") if s.key is None else mk_bool(
+        Set(Str).dt.dom(s.self._in_flight.term) == z3.Store(Set(Str).dt.dom(s.old(s.self)._in_flight.term), _kt(s.key), True))])
+
+
+def _request_post(s):
+    o, n = s.old(s.self), s.self
+    k = _fwd_key(s)
+    if isinstance(k, str) and k == "no-call":
+        # suppressed duplicate: nothing forwarded, nothing changes but the hit counter
+        return (s.result is None) and (unchanged(s, n, "_in_flight", "_cache") & (n._cache_hits == o._cache_hits + 1))
+    if k is None:
+        return s.result is not None                      # requests without a key are always forwarded
+    # forwarded with a key: it was neither cached nor in flight, and is in flight now
+    return (s.result is not None) and (Not(contains(o._cache, k)) & Not(contains(o._in_flight, k)) & contains(n._in_flight, k)
+                                       & (n._cache_misses == o._cache_misses + 1))
+
+
+fn(IdempotencyStore, "_handle_request", args={"event": Ref(Event)}, uses=[(IdempotencyStore, "_forward")], ensures=[
+    ("a-key-is-forwarded-at-most-once-while-in-flight-or-cached", _request_post),
+    ("counted", lambda s: s.self._total_requests == s.old(s.self)._total_requests + 1),
+    ("cache-untouched", lambda s: unchanged(s, s.self, "_cache"))])
+
+
+# ---- outbox: entries are numbered in write order, appended once, unrelayed ---------------------
+cls(OutboxEntry, fields={"entry_id": Int, "payload": Map(Str, Any), "written_at": TIME, "relayed": Bool})
+cls(OutboxRelay, fields={"_downstream": Ref(Entity), "_poll_interval": Real, "_batch_size": Int, "_relay_latency": Real,
+                         "_entries": Seq(Ref(OutboxEntry)), "_next_entry_id": Int, "_poll_scheduled": Bool,
+                         "_entries_written": Int, "_entries_relayed": Int, "_relay_failures": Int, "_poll_cycles": Int,
+                         "_relay_lag_sum": Real, "_relay_lag_max": Real},
+    const=["_downstream", "_poll_interval", "_batch_size", "_relay_latency"],
+    inv=[("config", lambda o: (o._poll_interval > 0) & (o._batch_size >= 1) & (o._relay_latency >= 0))])
+
+
+def _outbox_write_post(s):
+    o, n = s.old(s.self), s.self
+    t, t0 = seq_term(n._entries), seq_term(o._entries)
+    last = ObjProxy(t[z3.Length(t) - 1], OutboxEntry)
+    return (mk_bool(z3.And(z3.Length(t) == z3.Length(t0) + 1, z3.Extract(t, 0, z3.Length(t0)) == t0))
+            & (s.result == o._next_entry_id + 1) & (n._next_entry_id == o._next_entry_id + 1)
+            & mk_bool(field_term(last, "entry_id") == num(s.result)) & Not(mk_bool(field_term(last, "relayed")))
+            & (n._entries_written == o._entries_written + 1))
+
+
+fn(OutboxRelay, "write", args={"payload": Map(Str, Any)}, ensures=[
+    ("appended-once-in-write-order-with-the-next-id-unrelayed", _outbox_write_post)])
+
+fn(OutboxRelay, "_schedule_poll", ensures=[
+    ("one-poll-in-the-future-addressed-to-self", lambda s: same(s.result.target, s.self) & (ns(s.result.time) >= now_ns(s.self))
+        & s.result.daemon & Not(s.result._cancelled)),
+    ("marked-scheduled", lambda s: s.self._poll_scheduled == True),  # noqa: E712
+    ("entries-untouched", lambda s: unchanged(s, s.self, "_entries", "_next_entry_id"))])
+
+
+# ============================================================================ bounded stand-ins (native, labelled bounded)
+# They run the REAL code in a fresh plain CPython process (no PyVC loader, no proxies) against the tree under check.
+_NATIVE_TOPIC = r"""
+import sys, json, logging
+sys.path.insert(0, sys.argv[1])
+logging.disable(logging.CRITICAL)
+from happysimulator import Simulation, Instant, Event, Entity
+from happysimulator.components.messaging.topic import Topic
+
+class Sink(Entity):
+    def __init__(self, name):
+        super().__init__(name)
+        self.got = 0
+    def handle_event(self, e):
+        if e.event_type == "topic_message":
+            self.got += 1
+
+evals, viol = 0, []
+for latency in (0.0, 0.01):
+    for n in range(0, 5):
+        for inactive in range(0, n + 1):
+            subs = [Sink(f"s{i}") for i in range(n)]
+            t = Topic("t", delivery_latency=latency)
+            for x in subs:
+                t.subscribe(x)
+            for x in subs[:inactive]:
+                t.unsubscribe(x)
+            sim = Simulation(entities=subs + [t], end_time=Instant.from_seconds(5))
+            sim.schedule(Event(time=Instant.from_seconds(0.5), event_type="publish", target=t,
+                               context={"payload": Event(time=Instant.from_seconds(0.5), event_type="m", target=t)}))
+            sim.run()
+            evals += 1
+            want = [0] * inactive + [1] * (n - inactive)
+            got = [x.got for x in subs]
+            if got != want:
+                viol.append({"case": f"latency={latency} subscribers={n} unsubscribed={inactive}", "received": got, "expected": want})
+print(json.dumps({"evaluations": evals, "violations": viol[:3]}))
+"""
+
+_NATIVE_ASSIGN = r"""
+import sys, json, itertools
+sys.path.insert(0, sys.argv[1])
+from happysimulator.components.streaming.consumer_group import RangeAssignment, RoundRobinAssignment, StickyAssignment
+evals, viol = 0, []
+names = ["a", "b", "c", "d", "e"]
+
+def check(kind, res, parts, cons):
+    flat = sorted(p for v in res.values() for p in v)
+    ok = sorted(res) == sorted(cons) and flat == sorted(parts)          # a partition of `parts` over exactly `cons`
+    if ok and kind == "range":
+        sizes = [len(res[c]) for c in sorted(cons)]
+        ok = max(sizes) - min(sizes) <= 1 and all(v == list(range(v[0], v[0] + len(v))) for v in res.values() if v)
+    if ok and kind in ("roundrobin", "sticky-fresh"):
+        sizes = [len(v) for v in res.values()]
+        ok = max(sizes) - min(sizes) <= 1
+    return ok
+
+for n in range(0, 8):
+    parts = list(range(n))
+    for k in range(1, 6):
+        for cons in itertools.combinations(names, k):
+            cons = list(cons)
+            for kind, strat in (("range", RangeAssignment()), ("roundrobin", RoundRobinAssignment()), ("sticky-fresh", StickyAssignment())):
+                res = strat.assign(list(parts), list(reversed(cons)))
+                evals += 1
+                if not check(kind, res, parts, cons):
+                    viol.append({"case": f"{kind} partitions={n} consumers={cons}", "result": res})
+for n in (1, 3, 6):                                # sticky across membership changes (join / leave orders)
+    for seq in itertools.permutations(["a", "b", "c"], 3):
+        st = StickyAssignment()
+        members = []
+        for step in list(seq) + ["-" + seq[0], "-" + seq[1]]:
+            if step.startswith("-"):
+                members.remove(step[1:])
+            else:
+                members.append(step)
+            res = st.assign(list(range(n)), list(members))
+            evals += 1
+            if members and not check("sticky", res, list(range(n)), members):
+                viol.append({"case": f"sticky partitions={n} steps={seq} at={step}", "result": res})
+print(json.dumps({"evaluations": evals, "violations": viol[:3]}))
+"""
+
+
+def _run_native(script):
+    import json
+    import subprocess
+    out = subprocess.run(["/venv/bin/python", "-c", script, _ctx.REPO], capture_output=True, text=True, timeout=240)
+    if out.returncode != 0:
+        raise RuntimeError("native stand-in failed: " + out.stderr[-600:])
+    return json.loads(out.stdout.strip().splitlines()[-1])
+
+
+PROPERTY["bounded"] = [
+    {"name": "topic-publish-reaches-every-active-subscriber-once",
+     "bound": "native run of Topic.publish under the engine: 0..4 subscribers, any prefix unsubscribed, delivery_latency in {0, 0.01}",
+     "fn": lambda seed, tier: _run_native(_NATIVE_TOPIC)},
+    {"name": "assignment-strategies-partition",
+     "bound": "Range/RoundRobin/Sticky.assign: 0..7 partitions x every non-empty subset of 5 consumers; Sticky over all join orders of 3 members then two leaves",
+     "fn": lambda seed, tier: _run_native(_NATIVE_ASSIGN)},
+]
+
+
+# ============================================================================ glue lemmas (contracts => property statement)
+def _lemma_four_states():
+    """MessageQueue invariants => every published id is in exactly one of pending / in flight / acknowledged / dead"""
+    S = z3.ArraySort(z3.StringSort(), z3.BoolSort())
+    issued, live, pending, flying, acked, dead = [z3.Const(n, S) for n in ("issued", "live", "pending", "flying", "acked", "dead")]
+    k = z3.String("k")
+    assume(z3.ForAll([k], z3.And(                                   # the class invariants, as sets
+        z3.Implies(pending[k], z3.And(live[k], z3.Not(flying[k]))), z3.Implies(flying[k], live[k]),
+        z3.Implies(live[k], z3.Or(pending[k], flying[k])),
+        issued[k] == z3.Or(live[k], acked[k], dead[k]), z3.Implies(z3.Or(acked[k], dead[k]), z3.Not(live[k])),
+        z3.Not(z3.And(acked[k], dead[k])))))
+    x = z3.String("x")
+    states = [pending[x], flying[x], acked[x], dead[x]]
+    oblige("issued-id-is-in-some-state", z3.Implies(issued[x], z3.Or(*states)))
+    oblige("never-in-two-states", z3.And(*[z3.Not(z3.And(a, b)) for i, a in enumerate(states) for b in states[i + 1:]]))
+    oblige("only-issued-ids-have-a-state", z3.Implies(z3.Or(*states), issued[x]))
+
+
+def _lemma_never_after_ack():
+    """acknowledged ids stay acknowledged and undeliverable: induction step over any later operation.  Every contract
+    keeps `acked => not live` (class invariant) and none removes an id from g_acked (others-untouched / frames), and
+    _deliver_message on a non-live id returns None."""
+    acked0, acked1, live1 = z3.Bools("acked0 acked1 live1")
+    assume(z3.Implies(acked0, acked1))          # no operation removes from g_acked
+    assume(z3.Implies(acked1, z3.Not(live1)))   # invariant after the operation
+    delivered = z3.Bool("delivered")
+    assume(z3.Implies(delivered, live1))        # _deliver_message: a delivery needs a live id
+    oblige("acked-before-implies-not-delivered-after", z3.Implies(acked0, z3.Not(delivered)))
+
+
+def _lemma_commit_chain():
+    """per-commit `view' == max(view, offset)` => along any sequence of commits the committed offset never decreases"""
+    a, b, c = z3.Ints("v0 o1 o2")
+    v1 = z3.If(a >= b, a, b)
+    v2 = z3.If(v1 >= c, v1, c)
+    oblige("two-commits-never-below-the-first", z3.And(v1 >= a, v2 >= v1, v2 >= a))
+
+
+def _lemma_same_key_same_partition():
+    f = _uf("c19_part_of", z3.StringSort(), z3.IntSort(), z3.IntSort())
+    k1, k2 = z3.Strings("k1 k2")
+    n = z3.Int("n")
+    oblige("equal-keys-land-in-the-same-partition", z3.Implies(k1 == k2, f(k1, n) == f(k2, n)))
+
+
+def _lemma_offsets_increasing():
+    """Partition invariant (offset of the j-th retained record == low + j) => strictly increasing, gap free"""
+    off = z3.Function("off", z3.IntSort(), z3.IntSort())
+    low, n, j = z3.Ints("low n j")
+    assume(z3.ForAll([j], z3.Implies(z3.And(j >= 0, j < n), off(j) == low + j)))
+    a = z3.Int("a")
+    oblige("consecutive-records-have-consecutive-offsets", z3.Implies(z3.And(a >= 0, a + 1 < n), off(a + 1) == off(a) + 1))
+    b = z3.Int("b")
+    oblige("later-record-has-larger-offset", z3.Implies(z3.And(a >= 0, a < b, b < n), off(a) < off(b)))
+
+
+lemma("queue-four-state-partition", _lemma_four_states)
+lemma("nothing-delivered-after-acknowledge-step", _lemma_never_after_ack)
+lemma("commit-sequence-monotone", _lemma_commit_chain)
+lemma("key-to-partition-is-a-function", _lemma_same_key_same_partition)
+lemma("partition-offsets-increasing-gap-free", _lemma_offsets_increasing)
